@@ -335,6 +335,43 @@ func runJobctlScenarios(c *Ctx) {
 		c.Nontrivial()
 	})
 
+	// F23: a retry task that was created but not recorded must still be found (and stopped) when
+	// the Job becomes complete through another index.
+	c.RunScenario("f23-unrecorded-task-when-complete", func() {
+		w := newJobctlSc(c, func(j *execution.Job) {
+			j.Spec.Template.MaxAttempts = i64p(2)
+			j.Spec.Template.Parallelism = &execution.ParallelismSpec{WithCount: i64p(2), CompletionStrategy: execution.AnySuccessful}
+		})
+		w.flush()
+		w.work() // creates index 0 and index 1, records both
+		w.flush()
+		pods := w.ownedPods()
+		if len(pods) != 2 {
+			return
+		}
+		two, zero := 2, 0
+		w.forceKind = &two
+		w.kubelet(pods[0], 3) // first index fails
+		w.flush()
+		w.work() // records the failure
+		w.flush()
+		w.faults = []string{"", sim.FaultConflict} // retry pod create ok, status update conflicts
+		c.Emit("jc.fault -", w.state())
+		c.Emit("jc.fault "+sim.FaultConflict, w.state())
+		w.work() // creates the retry of the first index; it stays unrecorded
+		w.forceKind = &zero
+		w.kubelet(pods[1], 3) // the other index succeeds: AnySuccessful is decided
+		w.flush()
+		for i := 0; i < 4; i++ {
+			w.work()
+			w.flush()
+		}
+		w.settle(4)
+		w.runTimersOut()
+		w.finalMonitors()
+		c.Nontrivial()
+	})
+
 	// F15: a task created but not recorded (status update conflict) is still killed with the Job.
 	c.RunScenario("f15-orphan-after-kill", func() {
 		w := newJobctlSc(c, nil)
